@@ -36,7 +36,7 @@ ASSUMPTIONS["C11"] = [
     "float64 interpolation trusted; matching tolerance 1e-12*scale + 64 eps*scale/sin(edge,plane)",
     "a face lying in the plane belongs to the slice whose normal opposes the face normal (source comment of slice_faces_plane; regularised solid semantics)",
     "when the plane contains mesh edges only the documented convention of triangle_cases is checked (on-edge faces with the third vertex on the positive side report the edge), coverage is not demanded",
-    "Path3D.is_closed / path length are demanded only for distinct expected section points > 1e-4 apart (path merge tolerance 1e-5); closedness also needs closed input and no vertex on the plane",
+    "Path3D.is_closed / path length are demanded only for distinct expected section points > 1e-4 apart (path merge tolerance 1e-5; for the processed Path2D of section_multiplane 1e-4 * path scale, as Path.merge_vertices works at tol_path.merge * scale); closedness also needs closed input and no vertex on the plane",
     "capping works at the resolution tol.merge: exact volume / watertightness of capped halves is demanded only when distinct expected section points are > 1e-6 apart and every crossing point is reproducible to 1e-9 (8 eps scale / sin(edge, plane)); a vertex taken as on-plane within tolerance widens the area / volume tolerance by the band it may move (and points within tol.merge of the surface count as on it)",
     "near-plane offsets avoid the half-grid value 5e-9 where the 1e-8 rounding grid of grouping.unique_rows may 'go either way' (documented there)",
     "transform_points' documented identity shortcut (|M - I| < 1e-8) is allowed for in the 2D round trip of section_multiplane",
@@ -318,11 +318,11 @@ def edges_of(F):
     return np.unique(e, axis=0)
 
 
-def closed_precondition(M, dots, signs, amb):
+def closed_precondition(M, dots, signs, amb, min_dist=1e-4):
     """closed input, no vertex on the plane, distinct crossing points farther apart than the path merge tolerance"""
     if not M["closed"] or amb or (signs == 0).any():
         return False
-    return endpoints_separated(M, dots, signs)
+    return endpoints_separated(M, dots, signs, min_dist=min_dist)
 
 
 # --------------------------------------------------------------------------------------------- C11.section
@@ -445,7 +445,8 @@ def b_section(case, ctx):
                     P3 = np.column_stack((P2[used], np.zeros(len(used)))) @ R.T + T[:3, 3]
                     dm = ref.dist_to_mesh(P3, V, F)
                     check(dm.max() <= 1e-12 * scale + rt, sm + "|path_off_surface", lambda: f"height {h}: path vertex {P3[int(np.argmax(dm))].tolist()} is {dm.max():.3g} from the surface")
-                    if closed_precondition(M, dk, sk, ak):
+                    # load_path processes the Path2D: Path.merge_vertices fuses points closer than tol_path.merge * path.scale
+                    if closed_precondition(M, dk, sk, ak, min_dist=1e-4 * max(1.0, 4.0 * scale)):
                         check(bool(p2.is_closed), sm + "|not_closed", f"height {h}: closed mesh, general position, Path2D not closed")
                 # equals the single section at origin + h n
                 if not ak:
